@@ -21,9 +21,12 @@ func (s ExploreRecursiveEdge) Interests() []datamodel.PathSegment {
 	return []datamodel.PathSegment{}
 }
 
-// Explore should ultimately never get called for an ExploreRecursiveEdge selector
+// Explore is only reached when an edge sits directly in the clause being explored,
+// i.e. as a member of a union at the top of a recursion's sequence
+// (ExploreRecursive fences off the case of a sequence that is nothing but an edge).
+// Such an edge has no child to offer: it explores nothing.
 func (s ExploreRecursiveEdge) Explore(n datamodel.Node, p datamodel.PathSegment) (Selector, error) {
-	panic("Traversed Explore Recursive Edge Node With No Parent")
+	return nil, nil
 }
 
 // Decide should almost never get called for an ExploreRecursiveEdge selector
